@@ -89,6 +89,11 @@ func (h *baseHandler) Read(p []byte) (n int, err error) {
 		if h.serverless {
 			return
 		}
+		if h.plain {
+			// Plain mode promises the file content and nothing else: a server
+			// notice (e.g. the long-line warning) must not end up in the output.
+			return
+		}
 
 		// Handle normal server message (display to the user)
 		h.readBuf.WriteString("SERVER")
